@@ -161,7 +161,7 @@ class C13(core.Check):
                                    ['M', [[12, 'PRINT 2'], [30, ''], [40, 'END']]], ['X', 0, None, 1]]},
         ]
 
-    def gen_ops(self, rng, nops):
+    def gen_ops(self, rng, nops, files=True):
         ops = []
         have = []
         for _ in range(nops):
@@ -209,6 +209,8 @@ class C13(core.Check):
                 ops.append(['X', rng.choice(pool), rng.choice([None, None] + have + [rng.randrange(65530)]),
                             rng.choice([None, None, 1, 2, 10, 100, 1000, 0])])
                 have = []          # numbers change; later ops draw fresh ones
+            elif not files and r < 0.985:
+                ops.append(['R'])     # small-memory sessions: opening a file may itself run out of memory
             elif r < 0.975:
                 ops.append(['L'])
             elif r < 0.985:
@@ -235,7 +237,7 @@ class C13(core.Check):
             r = rng.random()
             nops = rng.randrange(1, 15) if r < 0.6 else rng.randrange(15, 60) if r < 0.9 else rng.randrange(60, maxops + 1)
             mem = MEMS[0] if rng.random() < 0.8 else rng.choice(MEMS[1:])
-            ops = self.gen_ops(rng, nops)
+            ops = self.gen_ops(rng, nops, files=(mem == MEMS[0]))
             for o in ops:
                 k = o[0]
                 if k == 'S' and not o[2].strip():
